@@ -308,4 +308,259 @@ theorem C07_extract_term (edges : List Edge) (fuel c : Nat) (hc : c ∈ (extract
     obtain ⟨t, h1, h2, h3⟩ := C07_reconstruct ig.guarded _ c hc (Nat.lt_succ_self _)
     exact ⟨_, t, h1, h2, h3⟩
 
+/-! ### totality of the repair: no costed class is left without a term -/
+
+theorem satAdd_le_cap (a b : Nat) : satAdd a b ≤ cap := by unfold satAdd; omega
+
+theorem satSum_le_cap : ∀ (cs : List Nat) (h : Nat), h ≤ cap → satSum h cs ≤ cap := by
+  intro cs
+  induction cs with
+  | nil => intro h hh; simpa [satSum] using hh
+  | cons c cs ih => intro h _; simp only [satSum, List.foldl_cons]; exact ih _ (satAdd_le_cap h c)
+
+theorem satSum_ge_init : ∀ (cs : List Nat) (h : Nat), h ≤ cap → h ≤ satSum h cs := by
+  intro cs
+  induction cs with
+  | nil => intro h _; simp [satSum]
+  | cons c cs ih =>
+    intro h hh
+    simp only [satSum, List.foldl_cons]
+    have : h ≤ satAdd h c := by unfold satAdd; omega
+    exact Nat.le_trans this (ih _ (satAdd_le_cap h c))
+
+/-- superiority of the saturating fold: the total dominates every summand -/
+theorem satSum_ge_elem : ∀ (cs : List Nat) (h : Nat) (j : Nat) (hj : j < cs.length), cs[j] ≤ cap → cs[j] ≤ satSum h cs := by
+  intro cs
+  induction cs with
+  | nil => intro h j hj; simp at hj
+  | cons c cs ih =>
+    intro h j hj hc
+    simp only [satSum, List.foldl_cons]
+    cases j with
+    | zero =>
+      simp only [List.getElem_cons_zero] at hc ⊢
+      have : c ≤ satAdd h c := by unfold satAdd; omega
+      exact Nat.le_trans this (satSum_ge_init cs _ (satAdd_le_cap h c))
+    | succ j =>
+      simp only [List.getElem_cons_succ] at hc ⊢
+      exact ih _ j (by simpa using hj) hc
+
+theorem reach_le_cap {edges : List Edge} (hh : ∀ e ∈ edges, e.head ≤ cap) {c k : Nat} (r : Reach edges c k) : k ≤ cap := by
+  cases r with
+  | mk e cs he _ _ _ => exact satSum_le_cap cs e.head (hh e he)
+
+theorem LE_getElem : ∀ (as bs : List Nat), LE as bs → as.length = bs.length ∧
+    ∀ i (h1 : i < as.length) (h2 : i < bs.length), as[i] ≤ bs[i] := by
+  intro as
+  induction as with
+  | nil => intro bs h; cases bs with
+    | nil => exact ⟨rfl, fun i h1 => by simp at h1⟩
+    | cons _ _ => exact absurd h (by simp [LE])
+  | cons a as ih =>
+    intro bs h
+    cases bs with
+    | nil => exact absurd h (by simp [LE])
+    | cons b bs =>
+      simp only [LE] at h
+      obtain ⟨hl, hp⟩ := ih bs h.2
+      refine ⟨by simp [hl], fun i h1 h2 => ?_⟩
+      cases i with
+      | zero => exact h.1
+      | succ i => exact hp i (by simpa using h1) (by simpa using h2)
+
+/-- a row that the second phase of the repair would use in state `s` -/
+def Eligible (costs : Costs) (s : GState) (e : Edge) : Prop :=
+  e.sub = false ∧ e.target ∉ s.grounded ∧ (costs e.target).isSome = true ∧ edgeCost costs e = costs e.target ∧
+    childrenGrounded s.grounded e = true
+
+def gbStep (costs : Costs) (s : GState) (e : Edge) : GState :=
+  if e.sub || s.grounded.contains e.target || (costs e.target).isNone || edgeCost costs e != costs e.target
+      || !childrenGrounded s.grounded e then s
+  else { parent := fun c => if c = e.target then some e else s.parent c, grounded := s.grounded ++ [e.target] }
+
+theorem groundBest_eq (edges : List Edge) (costs : Costs) (s : GState) : groundBest edges costs s = edges.foldl (gbStep costs) s := rfl
+
+theorem gbStep_len (costs : Costs) (s : GState) (e : Edge) : s.grounded.length ≤ (gbStep costs s e).grounded.length := by
+  unfold gbStep; split <;> simp
+
+theorem gbFold_len (costs : Costs) : ∀ (es : List Edge) (s : GState), s.grounded.length ≤ (es.foldl (gbStep costs) s).grounded.length := by
+  intro es
+  induction es with
+  | nil => intro s; exact Nat.le_refl _
+  | cons e es ih => intro s; exact Nat.le_trans (gbStep_len costs s e) (ih _)
+
+theorem gbStep_eligible {costs : Costs} {s : GState} {e : Edge} (h : Eligible costs s e) :
+    (gbStep costs s e).grounded.length = s.grounded.length + 1 := by
+  obtain ⟨h1, h2, h3, h4, h5⟩ := h
+  unfold gbStep
+  have c2 : s.grounded.contains e.target = false := by simpa using h2
+  have c3 : (costs e.target).isNone = false := by
+    cases hc : costs e.target with
+    | none => rw [hc] at h3; simp at h3
+    | some _ => rfl
+  have c4 : (edgeCost costs e != costs e.target) = false := by simp [h4]
+  simp [h1, c3, c4, h5, h2]
+
+theorem gbStep_not_eligible {costs : Costs} {s : GState} {e : Edge} (h : ¬ Eligible costs s e) : gbStep costs s e = s := by
+  unfold gbStep
+  split
+  · rfl
+  · rename_i hc
+    exfalso; apply h
+    simp only [Bool.or_eq_true, Bool.not_eq_true', not_or, Bool.not_eq_true, bne_iff_ne, ne_eq, Decidable.not_not,
+      Option.isNone_iff_eq_none, List.contains_iff_mem] at hc
+    obtain ⟨⟨⟨⟨h1, h2⟩, h3⟩, h4⟩, h5⟩ := hc
+    refine ⟨by simpa using h1, by simpa using h2, ?_, h4, by simpa using h5⟩
+    cases hcc : costs e.target with
+    | none => exact absurd hcc h3
+    | some _ => rfl
+
+/-- if the second phase makes no progress, no row of the e-graph was eligible -/
+theorem noprogress_no_eligible (costs : Costs) : ∀ (es : List Edge) (s : GState),
+    (es.foldl (gbStep costs) s).grounded.length = s.grounded.length → ∀ e ∈ es, ¬ Eligible costs s e := by
+  intro es
+  induction es with
+  | nil => intro s _ e he; simp at he
+  | cons e0 es ih =>
+    intro s hlen e he
+    simp only [List.foldl_cons] at hlen
+    by_cases h0 : Eligible costs s e0
+    · have a := gbStep_eligible h0
+      have b := gbFold_len costs es (gbStep costs s e0)
+      omega
+    · rw [gbStep_not_eligible h0] at hlen
+      simp only [List.mem_cons] at he
+      rcases he with rfl | he
+      · exact h0
+      · exact ih s hlen e he
+
+/-- the heart of the totality argument: an ungrounded class of MINIMAL cost cannot have a derivation -/
+theorem no_min_ungrounded {edges : List Edge} {costs : Costs} (hst : Stable edges costs) (hh : ∀ e ∈ edges, e.head ≤ cap)
+    {s : GState} (hne : ∀ e ∈ edges, ¬ Eligible costs s e) {c k : Nat} (r : Reach edges c k) :
+    costs c = some k → c ∉ s.grounded → (∀ c' k', costs c' = some k' → c' ∉ s.grounded → k ≤ k') → False := by
+  induction r with
+  | mk e cs he hsub hlen hkids ih =>
+    intro hck hcg hmin
+    -- the recorded costs of the children are dominated by the derivation's
+    obtain ⟨cs', hcs', hle⟩ := lookupAll_of_bounds costs e.children cs hlen (fun i h1 h2 => stable_le hst (hkids i h1 h2))
+    obtain ⟨hl', hpt⟩ := LE_getElem cs' cs hle
+    obtain ⟨hl2, hget⟩ := lookupAll_spec costs e.children cs' hcs'
+    -- so this row is a best row of its class
+    obtain ⟨kk, hkk, hkle⟩ := hst e he hsub cs' hcs'
+    rw [hck] at hkk; cases hkk
+    have hmono : satSum e.head cs' ≤ satSum e.head cs := satSum_mono cs' cs e.head e.head hle (Nat.le_refl _)
+    have hbest : edgeCost costs e = costs e.target := by
+      unfold edgeCost; rw [hcs', hck]; simp only [Option.map_some]; congr 1; omega
+    -- it is not eligible, hence one of its children is not grounded
+    have hng : childrenGrounded s.grounded e ≠ true := fun hcgr => hne e he ⟨hsub, hcg, by rw [hck]; rfl, hbest, hcgr⟩
+    have : ∃ j, ∃ (hj : j < e.children.length), e.children[j] ∉ s.grounded := by
+      apply Classical.byContradiction
+      intro hno
+      apply hng
+      unfold childrenGrounded
+      rw [List.all_eq_true]
+      intro x hx
+      obtain ⟨j, hj, rfl⟩ := List.getElem_of_mem hx
+      apply Classical.byContradiction
+      intro hxx
+      exact hno ⟨j, hj, by simpa using hxx⟩
+    obtain ⟨j, hj, hjg⟩ := this
+    have hj' : j < cs'.length := by omega
+    have hj'' : j < cs.length := by omega
+    have hcj : costs e.children[j] = some cs'[j] := hget j hj hj'
+    -- its cost is squeezed between the minimum and the total
+    have h1 : satSum e.head cs ≤ cs'[j] := hmin _ _ hcj hjg
+    have hcapj : cs[j] ≤ cap := reach_le_cap hh (hkids j hj hj'')
+    have h2 : cs[j] ≤ satSum e.head cs := satSum_ge_elem cs e.head j hj'' hcapj
+    have h3 : cs'[j] ≤ cs[j] := hpt j hj' hj''
+    have heq : cs'[j] = cs[j] := by omega
+    refine ih j hj hj'' (by rw [hcj, heq]) hjg (fun c' k' hc' hg' => ?_)
+    have := hmin c' k' hc' hg'
+    omega
+
+/-- **The repair is total**: at the cost fixpoint, once the second phase of the repair makes no
+more progress, EVERY class that has a cost is grounded — so (with `C07_extract_term`) extraction
+fails only when the class has no term at all, also where the rank guard alone would have left a
+gap (defect 4). -/
+theorem C07_repair_total {edges : List Edge} {costs : Costs} (hs : Sound edges costs) (hst : Stable edges costs)
+    (hh : ∀ e ∈ edges, e.head ≤ cap) (s : GState)
+    (hnp : (groundBest edges costs s).grounded.length = s.grounded.length) :
+    ∀ c k, costs c = some k → c ∈ s.grounded := by
+  have hne : ∀ e ∈ edges, ¬ Eligible costs s e := noprogress_no_eligible costs edges s (by rw [← groundBest_eq]; exact hnp)
+  -- strong induction on the cost: there is no ungrounded costed class at all
+  have key : ∀ k, ∀ c, costs c = some k → c ∉ s.grounded → False := by
+    intro k
+    induction k using Nat.strongRecOn with
+    | _ k ih =>
+      intro c hc hg
+      by_cases hsm : ∃ c' k', costs c' = some k' ∧ c' ∉ s.grounded ∧ k' < k
+      · obtain ⟨c', k', h1, h2, h3⟩ := hsm
+        exact ih k' h3 c' h1 h2
+      · refine no_min_ungrounded hst hh hne (hs c k hc) hc hg (fun c' k' h1 h2 => ?_)
+        apply Classical.byContradiction
+        intro hlt
+        exact hsm ⟨c', k', h1, h2, by omega⟩
+  intro c k hc
+  apply Classical.byContradiction
+  intro hg
+  exact key k c hc hg
+
+/-- the rank bookkeeping does not change the costs or the fixpoint flag -/
+theorem relaxR_costs (s : RState) (e : Edge) : (relaxR s e).1.costs = (relax s.costs e).1 ∧ (relaxR s e).2 = (relax s.costs e).2 := by
+  unfold relaxR
+  simp only
+  split
+  · rename_i h; exact ⟨rfl, h.symm⟩
+  · rename_i h
+    have hf : (relax s.costs e).2 = false := by simpa using h
+    exact ⟨(relax_false hf).1.symm, hf.symm⟩
+
+theorem passR_costs (edges : List Edge) : ∀ (acc : RState × Bool) (acc' : Costs × Bool), acc.1.costs = acc'.1 → acc.2 = acc'.2 →
+    (edges.foldl (fun (a : RState × Bool) e => let r := relaxR a.1 e; (r.1, a.2 || r.2)) acc).1.costs =
+      (edges.foldl (fun (a : Costs × Bool) e => let r := relax a.1 e; (r.1, a.2 || r.2)) acc').1 ∧
+    (edges.foldl (fun (a : RState × Bool) e => let r := relaxR a.1 e; (r.1, a.2 || r.2)) acc).2 =
+      (edges.foldl (fun (a : Costs × Bool) e => let r := relax a.1 e; (r.1, a.2 || r.2)) acc').2 := by
+  induction edges with
+  | nil => intro acc acc' h1 h2; exact ⟨h1, h2⟩
+  | cons e es ih =>
+    intro acc acc' h1 h2
+    simp only [List.foldl_cons]
+    apply ih
+    · simp only; rw [(relaxR_costs acc.1 e).1, h1]
+    · simp only; rw [(relaxR_costs acc.1 e).2, h1, h2]
+
+theorem bfR_costs (edges : List Edge) : ∀ (fuel : Nat) (s : RState),
+    (bellmanFordR edges fuel s).1.costs = (bellmanFord edges fuel s.costs).1 ∧
+      (bellmanFordR edges fuel s).2 = (bellmanFord edges fuel s.costs).2 := by
+  intro fuel
+  induction fuel with
+  | zero => intro s; exact ⟨rfl, rfl⟩
+  | succ n ih =>
+    intro s
+    simp only [bellmanFordR, bellmanFord]
+    obtain ⟨h1, h2⟩ := passR_costs edges (s, false) (s.costs, false) rfl rfl
+    have hp1 : (passR edges s).1.costs = (pass edges s.costs).1 := h1
+    have hp2 : (passR edges s).2 = (pass edges s.costs).2 := h2
+    rw [hp2]
+    split
+    · have := ih (passR edges s).1
+      rw [hp1] at this; exact this
+    · exact ⟨hp1, rfl⟩
+
+/-- **Extraction fails only when the class has no term** — for the whole repaired pipeline of the
+model: at the cost fixpoint, with every head cost within `u64`, once the repair's second phase
+makes no more progress every class with a derivation (`Reach`) is grounded, hence (by
+`C07_reconstruct`) has a reconstructed member term of its recorded cost. -/
+theorem C07_pipeline_total (edges : List Edge) (fuel : Nat) (hh : ∀ e ∈ edges, e.head ≤ cap)
+    (hfix : (bellmanFordR edges fuel ⟨noCosts, fun _ => 0, 0⟩).2 = true) (s : GState)
+    (hnp : (groundBest edges (bellmanFordR edges fuel ⟨noCosts, fun _ => 0, 0⟩).1.costs s).grounded.length = s.grounded.length)
+    (c k : Nat) (r : Reach edges c k) : c ∈ s.grounded := by
+  obtain ⟨hc, hf⟩ := bfR_costs edges fuel ⟨noCosts, fun _ => 0, 0⟩
+  have hfix' : (bellmanFord edges fuel noCosts).2 = true := by rw [← hf]; exact hfix
+  obtain ⟨hs, hst⟩ := bf_spec edges fuel noCosts (fun _ _ h => by simp [noCosts] at h)
+  have hst' := hst hfix'
+  rw [hc] at hnp
+  obtain ⟨k', hk', _⟩ := stable_le hst' r
+  exact C07_repair_total hs hst' hh s hnp c k' hk'
+
 end EgglogVerif.Extract
